@@ -903,14 +903,18 @@ class SimpleShape(DefinedShape):
             # cap S_i in S_j = any_i (bar S_j in bar S_i)
             contains = False
             self.invert()
-            for subshape in other.subshapes:
-                subshape.invert()
-                if self in subshape:
-                    contains = True
-                subshape.invert()
-                if contains:
-                    break
-            self.invert()
+            try:
+                for subshape in other.subshapes:
+                    subshape.invert()
+                    try:
+                        if self in subshape:
+                            contains = True
+                    finally:
+                        subshape.invert()
+                    if contains:
+                        break
+            finally:
+                self.invert()
             return contains
         # Disjoint shape
         for subshape in other.subshapes:
